@@ -36,7 +36,7 @@ Lemma rsum_ext_in w w' m :
   (forall b j a r q, In ([b; j; a; r], [q]) m -> w b j a r = w' b j a r) -> rsum w m = rsum w' m.
 Proof.
   unfold rsum. induction m as [|kv m IH]; intros H; cbn [zsum]; [reflexivity|].
-  rewrite IH by (intros; apply H; right; assumption). f_equal.
+  rewrite IH by (intros b j a r q Hin; apply (H b j a r q); right; exact Hin). f_equal.
   row_shape kv; cbn [rowval]; try reflexivity. rewrite (H b j a r q) by (left; reflexivity). reflexivity.
 Qed.
 
@@ -121,6 +121,56 @@ Qed.
 Lemma kf_bp_local : kf_local kf_bp.
 Proof. intros s s' _ _ Hb b j r. unfold kf_bp, batch_bp, batch_user, find_batch. rewrite Hb. reflexivity. Qed.
 
+(* ------------------------------------------------------------------ attempts: lookup after replacement / append *)
+
+Definition akey (b j a : Z) (x : attempt) : bool := (a_batch x =? b) && (a_job x =? j) && (a_id x =? a).
+
+Lemma find_attempt_eq s b j a : find_attempt s b j a = find (akey b j a) (attempts s).
+Proof. reflexivity. Qed.
+
+Lemma find_akey_replace l n b j a :
+  find (akey b j a) (replace_attempt n l) =
+  if akey b j a n then option_map (fun _ => n) (find (akey b j a) l) else find (akey b j a) l.
+Proof.
+  unfold replace_attempt. induction l as [|x l IH]; cbn [map find].
+  - destruct (akey b j a n); reflexivity.
+  - destruct (same_attempt x n) eqn:E.
+    + unfold same_attempt in E.
+      assert (Hk : akey b j a x = akey b j a n) by (unfold akey; lia).
+      destruct (akey b j a n) eqn:Kn; rewrite Hk; [reflexivity | rewrite IH; reflexivity].
+    + destruct (akey b j a x) eqn:Kx.
+      * destruct (akey b j a n) eqn:Kn; [|reflexivity].
+        exfalso. unfold akey in Kx, Kn. unfold same_attempt in E. lia.
+      * rewrite IH. reflexivity.
+Qed.
+
+Lemma find_akey_sound l b j a x : find (akey b j a) l = Some x -> In x l /\ a_batch x = b /\ a_job x = j /\ a_id x = a.
+Proof.
+  intros H. apply find_some in H. destruct H as [Hin Hk]. unfold akey in Hk. repeat split; [exact Hin | lia | lia | lia].
+Qed.
+
+Lemma clamp_keys o n : a_batch (clamp o n) = a_batch n /\ a_job (clamp o n) = a_job n /\ a_id (clamp o n) = a_id n.
+Proof. unfold clamp. destruct (clamp4 (times_of o) (times_of n)) as [[[st r] e] rs]. repeat split; reflexivity. Qed.
+
+(** billed time after `UPDATE attempts` of the row [o] (found under its own key) with request [req] *)
+Lemma billed_of_update_attempt s o req b j a :
+  find_attempt s (a_batch o) (a_job o) (a_id o) = Some o ->
+  a_batch req = a_batch o -> a_job req = a_job o -> a_id req = a_id o ->
+  billed_of (update_attempt s o req) b j a
+  = billed_of s b j a + (if akey b j a o then billed (clamp o req) - billed o else 0).
+Proof.
+  intros Hf Kb Kj Ka.
+  pose proof (update_attempt_frame s o req) as F. cbv zeta in F.
+  destruct F as (_&_&_&_&_&_&_&_&_&_&Fa&_).
+  unfold billed_of. rewrite !find_attempt_eq, Fa, find_akey_replace.
+  destruct (clamp_keys o req) as (C1&C2&C3).
+  assert (Hk : akey b j a (clamp o req) = akey b j a o) by (unfold akey; rewrite C1, C2, C3, Kb, Kj, Ka; reflexivity).
+  rewrite Hk. destruct (akey b j a o) eqn:K; [|lia].
+  assert (find (akey b j a) (attempts s) = Some o) as ->.
+  { unfold akey in K. assert (b = a_batch o) by lia. assert (j = a_job o) by lia. assert (a = a_id o) by lia. subst. exact Hf. }
+  cbn [option_map]. lia.
+Qed.
+
 (* ------------------------------------------------------------------ generic in (table, key function) *)
 
 Section Table.
@@ -146,4 +196,87 @@ Section Table.
     rewrite (zsum_ext _ (fun rq => snd rq * kcount k0 (kf s b j (fst rq)))); [lia|].
     intros rq. rewrite kf_bill. reflexivity.
   Qed.
+
+  Hypothesis tbl_attempts : forall s f, tbl (s <| attempts ::= f |>) = tbl s.
+  Hypothesis tbl_attempt_res : forall s f, tbl (s <| attempt_res ::= f |>) = tbl s.
+
+  (** congruence: same table, same rows, and on those rows same keys and same billed times *)
+  Lemma AggOK_congr s s' :
+    AggOK tbl kf s -> tbl s' = tbl s -> attempt_res s' = attempt_res s ->
+    (forall b j a r q, In ([b; j; a; r], [q]) (attempt_res s) ->
+       kf s' b j r = kf s b j r /\ billed_of s' b j a = billed_of s b j a) ->
+    AggOK tbl kf s'.
+  Proof.
+    intros H Ht Hr Hrows k0. unfold usage. rewrite Ht, Hr, H. unfold usage.
+    apply rsum_ext_in. intros b j a r q Hin. destruct (Hrows b j a r q Hin) as [-> ->]. reflexivity.
+  Qed.
+
+  (** `UPDATE attempts` of a row: BEFORE trigger (clamp), AFTER trigger (bill the difference for every resource row) *)
+  Lemma AggOK_update_attempt s o req :
+    AggOK tbl kf s ->
+    find_attempt s (a_batch o) (a_job o) (a_id o) = Some o ->
+    a_batch req = a_batch o -> a_job req = a_job o -> a_id req = a_id o ->
+    AggOK tbl kf (update_attempt s o req).
+  Proof.
+    intros H Hf Kb Kj Ka k0.
+    pose proof (update_attempt_frame s o req) as F. cbv zeta in F.
+    destruct F as (F1&F2&F3&F4&F5&F6&F7&F8&F9&F10&F11&F12&F13&F14).
+    set (b := a_batch o); set (j := a_job o); set (a := a_id o).
+    set (d := billed (clamp o req) - billed o).
+    (* right-hand side *)
+    assert (Hkf : forall b' j' r', kf (update_attempt s o req) b' j' r' = kf s b' j' r') by (intros; apply kf_loc; assumption).
+    assert (Hu : usage kf (update_attempt s o req) k0
+                 = usage kf s k0 + d * zsum (fun rq => snd rq * kcount k0 (kf s b j (fst rq))) (res_of s b j a)).
+    { unfold usage. rewrite F13.
+      rewrite (rsum_ext_in _ (fun b' j' a' r => kcount k0 (kf s b' j' r) * billed_of s b' j' a'
+                                               + d * (if (b' =? b) && (j' =? j) && (a' =? a) then kcount k0 (kf s b j r) else 0))).
+      - rewrite rsum_plus, rsum_scale, <- res_of_sum. reflexivity.
+      - intros b' j' a' r q _. rewrite Hkf, billed_of_update_attempt by assumption.
+        unfold akey. fold b j a d.
+        replace ((b =? b') && (j =? j') && (a =? a')) with ((b' =? b) && (j' =? j) && (a' =? a)) by lia.
+        destruct ((b' =? b) && (j' =? j) && (a' =? a)) eqn:E; [|lia].
+        assert (b' = b) by lia. assert (j' = j) by lia. subst b' j'. lia. }
+    rewrite Hu, <- H.
+    (* left-hand side *)
+    destruct (clamp_keys o req) as (C1&C2&C3).
+    unfold update_attempt. cbv zeta. fold d.
+    destruct (d =? 0) eqn:Ed.
+    - rewrite tbl_attempts. assert (d = 0) by lia. lia.
+    - rewrite C1, C2, C3, Kb, Kj, Ka. fold b j a.
+      rewrite fold_bill_table, tbl_attempts.
+      assert (res_of (s <| attempts ::= replace_attempt (clamp o req) |>) b j a = res_of s b j a) as -> by reflexivity.
+      rewrite (zsum_ext _ (fun rq => snd rq * kcount k0 (kf s b j (fst rq)))); [reflexivity|].
+      intros rq. f_equal. f_equal. apply kf_loc; reflexivity.
+  Qed.
+
+  (** INSERT INTO attempt_resources ... ON DUPLICATE KEY UPDATE quantity = quantity + AFTER INSERT trigger *)
+  Lemma AggOK_add_one_resource s b j a rq :
+    AggOK tbl kf s -> AggOK tbl kf (add_one_resource b j a s rq).
+  Proof.
+    intros H k0. destruct rq as [r q]. unfold add_one_resource.
+    destruct (existsb _ (attempt_res s)); [apply H|]. cbv zeta.
+    set (s1 := s <| attempt_res ::= fun m => m ++ [([b; j; a; r], [q])] |>).
+    assert (Hb1 : forall b' j' a', billed_of s1 b' j' a' = billed_of s b' j' a') by reflexivity.
+    assert (Hk1 : forall b' j' r', kf s1 b' j' r' = kf s b' j' r') by (intros; apply kf_loc; reflexivity).
+    assert (Hu1 : usage kf s1 k0 = usage kf s k0 + q * (kcount k0 (kf s b j r) * billed_of s b j a)).
+    { unfold usage. change (attempt_res s1) with (attempt_res s ++ [([b; j; a; r], [q])]).
+      rewrite rsum_app. unfold rsum at 2. cbn [zsum rowval]. rewrite Hk1, Hb1.
+      rewrite (rsum_ext_in _ (fun b0 j0 a0 r0 => kcount k0 (kf s b0 j0 r0) * billed_of s b0 j0 a0)); [lia|].
+      intros; rewrite Hk1, Hb1; reflexivity. }
+    change (match find_attempt s1 b j a with Some at_ => billed at_ | None => 0 end) with (billed_of s b j a).
+    destruct (billed_of s b j a =? 0) eqn:E.
+    - rewrite Hu1. unfold s1 at 1. rewrite tbl_attempt_res, H. assert (billed_of s b j a = 0) by lia. lia.
+    - pose proof (bill_frame s1 b j (billed_of s b j a) (r, q)) as F. cbv zeta in F.
+      destruct F as (F1&F2&F3&F4&F5&F6&F7&F8&F9&F10&F11&F12&F13&F14).
+      rewrite tbl_bill, table_val_fold_cadd. unfold s1 at 1. rewrite tbl_attempt_res, H, Hk1.
+      transitivity (usage kf s1 k0); [rewrite Hu1; lia|].
+      set (s2 := bill s1 b j (billed_of s b j a) (r, q)) in *.
+      unfold usage. rewrite F13. apply rsum_ext_in. intros b' j' a' r' q' _.
+      rewrite (kf_loc s1 s2) by assumption.
+      unfold billed_of, find_attempt. rewrite F11. reflexivity.
+  Qed.
+
+  Lemma AggOK_fold_add_resources b j a rqs : forall s,
+    AggOK tbl kf s -> AggOK tbl kf (fold_left (add_one_resource b j a) rqs s).
+  Proof. induction rqs as [|rq rqs IH]; intros s H; cbn [fold_left]; [exact H | apply IH, AggOK_add_one_resource, H]. Qed.
 End Table.
